@@ -32,149 +32,153 @@ def char_switch_groups(fn):
 PUNCT = [c for c in range(33, 127) if not chr(c).isalnum()]
 
 
-def macro_alphabets(mac, pf, pid):
-    """Abstract evaluation of the macro's token parser for each ASCII punctuation character c, with the token
-    stream symbolic: `init` = characters for which a Punct token with as_char() == c can become (the start of) a
-    symbol (parse_identifier is reached, or Ok(Value::Symbol) is returned); `subs` = characters parse_identifier
-    appends to the identifier.  Helper functions of the macro's parser are looked through."""
-    RES, OPT = "std::result::Result", "std::option::Option"
-    leaf = {"parser::Parser::token", "parser::Parser::peek", "parser::Parser::eat_token", "parser::Parser::next_token",
-            "parser::Parser::parse_octothorpe", "parser::Parser::parse_identifier", "parser::parse_list",
-            "parser::parse_vector", "parser::string_literal", "parser::Parser::parse"}
-    inline = lambda a, b: b.crate == mac.name and b.file.endswith("parser.rs") and b.path not in leaf and b.kind != "closure"
+class MacroParser:
+    """The macro's token parser over structural token vectors: `Parser::parse` (and the list parser) run as MIR on a
+    Parser value whose token storage - a Vec<TokenTree> or a borrowed slice of them - holds the given tokens."""
+
+    def __init__(self, mac):
+        self.mac = mac
+        self.ok = False
+        self.pf = mac.fn("parser::Parser::parse")
+        self.sp = mac.ext_adts.get("proc_macro2::Spacing")
+        self.tt = mac.ext_adts.get("proc_macro2::TokenTree")
+        pa = mac.adts.get("parser::Parser")
+        if self.pf is None or not self.sp or not self.tt or not pa:
+            self.why = "parser::Parser::parse / parser::Parser / proc_macro2 token types"
+            return
+        self.vidx = {v["name"]: v["idx"] for v in self.tt["variants"]}
+        pfields = pa["variants"][0]["fields"]
+        self.tok_field = [i for i, f in enumerate(pfields) if "proc_macro2::TokenTree" in f["ty"]]
+        self.idx_field = [i for i, f in enumerate(pfields) if f["ty"] == "usize"]
+        if len(self.tok_field) != 1 or len(self.idx_field) != 1 or len(pfields) != 2:
+            self.why = "parser::Parser { tokens, index: usize } (fields %s)" % [f["ty"] for f in pfields]
+            return
+        self.tok_is_vec = pfields[self.tok_field[0]]["ty"].startswith("std::vec::Vec<")
+        self.spv = {v["name"]: Adt("proc_macro2::Spacing", v["idx"], [], v["name"]) for v in self.sp["variants"]}
+        self.leaf = {"parser::string_literal"}
+        self.ok = True
+
+    def P(self, ch, s="Alone"):
+        c = ch if isinstance(ch, int) else ord(ch)
+        return Adt("proc_macro2::TokenTree", self.vidx["Punct"], [Adt("proc_macro2::Punct", 0, [c, self.spv[s]])], "Punct")
+
+    def T(self, kind):
+        return Adt("proc_macro2::TokenTree", self.vidx[kind], [sim.Opq(kind.lower())], kind)
+
+    def parser_value(self, toks):
+        fs = [None, None]
+        store = sim.Tup(list(toks))
+        fs[self.tok_field[0]] = Adt("sim::Vec", 0, [store]) if self.tok_is_vec else sim.Ref([store], 0, ())
+        fs[self.idx_field[0]] = 0
+        return Adt("parser::Parser", 0, fs)
+
+    def hook(self, S, fn, bb, t, args, path):
+        p = t["callee"].get("path", "")
+        if p in ("proc_macro2::Punct::as_char", "proc_macro2::Punct::spacing"):
+            pvv = S._deref(args[0], path)
+            if isinstance(pvv, Adt) and pvv.adt == "proc_macro2::Punct":
+                return ("value", pvv.fields[0 if p.endswith("as_char") else 1])
+            return ("value", UNK)
+        if p in ("parser::parse_list", "parser::parse_vector"):
+            return ("value", Adt("std::result::Result", 0, [sim.Opq("nested")]))   # the group's own tokens
+        if p in self.leaf:
+            return ("fork", [Adt("std::result::Result", 0, [sim.Opq("text")]), Adt("std::result::Result", 1, [UNK])])
+        return None
+
+    def parse(self, toks):
+        """Outcomes of Parser::parse on the token vector: set of (kind, cursor) with kind the Value variant name of
+        an accepted reading, 'rejected', 'panic' or '?..'."""
+        inline = lambda a, b: b.crate == self.mac.name and b.file.endswith("parser.rs") and b.path not in self.leaf
+        cell = [self.parser_value(toks)]
+        S = sim.Sim([self.mac], hooks={"call": self.hook}, inline=inline, max_paths=4000, max_depth=7, max_visits=8)
+        outs = set()
+        try:
+            for pth in S.run(self.pf, args={1: sim.Ref(cell, 0, ())}):
+                if pth.end == "return" and isinstance(pth.ret, Adt) and pth.ret.adt.endswith("Result"):
+                    if pth.ret.variant != 0:
+                        outs.add(("rejected", None))
+                        continue
+                    mine, _ = S._caller_env(cell, pth, 0)
+                    pvv = mine[0]
+                    at = pvv.fields[self.idx_field[0]] if isinstance(pvv, Adt) and pvv.adt == "parser::Parser" else None
+                    v = S._deref(pth.ret.fields[0], pth)
+                    kind = (v.vname or str(v.variant)) if isinstance(v, Adt) else "?value"
+                    outs.add((kind, at if isinstance(at, int) else "?index"))
+                elif pth.end == "panic":
+                    outs.add(("panic", None))
+                else:
+                    outs.add(("?" + str(pth.end), None))
+        except sim.Limit:
+            outs = {("?limit", None)}
+        return outs
+
+
+def macro_alphabets(mp):
+    """The macro's symbol alphabets by evaluation on structural token vectors: `init` = punctuation characters that,
+    standing alone, are read as a one-character symbol or, glued to a following character, start a longer one;
+    `subs` = characters that are appended to a symbol begun by a glued first character."""
     init, subs = set(), set()
     for c in PUNCT:
-        def hook(S, fn, bb, t, args, path, c=c):
-            p = t["callee"].get("path", "")
-            if p == "parser::Parser::token":
-                return ("value", Adt(RES, 0, [UNK]))
-            if p == "proc_macro2::Punct::as_char":
-                return ("value", c)
-            if p in leaf:
-                return ("value", UNK)
-            return None
-
-        S = sim.Sim([mac], hooks={"call": hook}, inline=inline, max_paths=6000, max_depth=5)
-        for pth in S.run(pf):
-            if not pth.calls("proc_macro2::Punct::as_char"):
-                continue
-            if pth.calls("parser::Parser::parse_identifier"):
-                init.add(c)
-            elif pth.end == "return" and isinstance(pth.ret, Adt) and pth.ret.variant == 0 and pth.ret.fields \
-                    and isinstance(pth.ret.fields[0], Adt) and pth.ret.fields[0].vname == "Symbol":
-                init.add(c)
-
-        def hook2(S, fn, bb, t, args, path, c=c):
-            p = t["callee"].get("path", "")
-            if p == "parser::Parser::peek":
-                # the token stream: one symbolic token, then the end (peek does not consume; eat_token does)
-                k = sum(1 for e in path.events if e[0] == "call" and "parser::Parser::eat_token" in e[1])
-                return ("value", Adt(OPT, 1, [UNK]) if k == 0 else Adt(OPT, 0, []))
-            if p == "proc_macro2::Punct::as_char":
-                return ("value", c)
-            if p in leaf:
-                return ("value", UNK)
-            return None
-
-        S2 = sim.Sim([mac], hooks={"call": hook2}, inline=inline, max_paths=6000, max_depth=5, max_visits=3)
-        for pth in S2.run(pid):
-            if pth.calls("proc_macro2::Punct::as_char") and pth.calls("std::string::String::push"):
-                subs.add(c)
-    return init, subs
+        alone = mp.parse([mp.P(c)]) - {("rejected", None)}
+        if alone and all(k == "Symbol" and at == 1 for k, at in alone):
+            init.add(c)
+    starter = None
+    for c in sorted(init):
+        two = mp.parse([mp.P(c, "Joint"), mp.P(c)]) - {("rejected", None)}
+        if two == {("Symbol", 2)}:
+            starter = c
+            break
+    if starter is None:
+        return init, subs, None
+    for c in PUNCT:
+        two = mp.parse([mp.P(starter, "Joint"), mp.P(c)]) - {("rejected", None)}
+        if two == {("Symbol", 2)}:
+            subs.add(c)
+    return init, subs, starter
 
 
-def spacing(ctx, mac, pf, pid, init, subs):
+def spacing(ctx, mp, init, subs, starter):
     """Rust reports for each punctuation character whether the next one follows immediately (Joint) or not
     (Alone).  A symbol of the text parser ends where white space begins, so the macro must end a punctuation
     symbol at a character that stands Alone and continue it at one that is Joint."""
     r = ctx.rule("R-MACRO-SPACING", "a punctuation character with Spacing::Alone ends the macro's symbol, one with "
                                     "Spacing::Joint continues it (start of a symbol and inside one)")
-    sp = mac.ext_adts.get("proc_macro2::Spacing")
-    if not sp:
-        r.anchor_missing("proc_macro2::Spacing (not used by lexpr_macros any more)")
-        return
-    OPT, RES = "std::option::Option", "std::result::Result"
-    leaf = {"parser::Parser::token", "parser::Parser::peek", "parser::Parser::eat_token", "parser::Parser::next_token",
-            "parser::Parser::parse_octothorpe", "parser::Parser::parse_identifier", "parser::parse_list",
-            "parser::parse_vector", "parser::string_literal", "parser::Parser::parse"}
-    inline = lambda a, b: b.crate == mac.name and b.file.endswith("parser.rs") and b.path not in leaf and b.kind != "closure"
+    pf = mp.pf
     n = 0
-    for v in sp["variants"]:
-        sval = Adt("proc_macro2::Spacing", v["idx"], [], v["name"])
+    follower = sorted(subs)[0] if subs else None
+    if follower is None or starter is None:
+        r.anchor_missing("a punctuation character the macro joins into symbols")
+        return
+    for sname in ("Alone", "Joint"):
         for c in sorted(subs):
-            def hook(S, fn, bb, t, args, path, c=c, sval=sval):
-                p = t["callee"].get("path", "")
-                if p == "parser::Parser::peek":
-                    k = sum(1 for e in path.events if e[0] == "call" and "parser::Parser::eat_token" in e[1])
-                    if k == 0:
-                        return ("value", Adt(OPT, 1, [UNK]))
-                    return ("stop", "next-token")
-                if p == "proc_macro2::Punct::as_char":
-                    return ("value", c)
-                if p == "proc_macro2::Punct::spacing":
-                    return ("value", sval)
-                if p in leaf:
-                    return ("value", UNK)
-                return None
-
-            S = sim.Sim([mac], hooks={"call": hook}, inline=inline, max_paths=6000, max_depth=5, max_visits=3)
-            cont, ended = 0, 0
-            try:
-                for pth in S.run(pid):
-                    if not pth.calls("std::string::String::push"):
-                        continue
-                    if pth.end == "stop:next-token":
-                        cont += 1
-                    elif pth.end == "return":
-                        ended += 1
-            except sim.Limit:
-                r.violation(pid.path, "inexact", "path limit in parse_identifier")
-                continue
+            outs = mp.parse([mp.P(starter, "Joint"), mp.P(c, sname), mp.P(follower), mp.T("Ident")]) - {("rejected", None)}
             n += 1
-            if v["name"] == "Alone" and cont == 0 and ended > 0:
-                r.ok("inside a symbol, %r standing Alone ends it" % chr(c), pid)
-            elif v["name"] == "Joint" and cont > 0 and ended == 0:
-                r.ok("inside a symbol, %r Joint with its successor continues it" % chr(c), pid)
-            elif cont == 0 and ended == 0:
-                r.violation(pid.path, "inexact:%s:%s" % (v["name"], chr(c)), "no path appends %r" % chr(c), pid.loc())
+            want = {("Symbol", 2)} if sname == "Alone" else {("Symbol", 3)}
+            if outs == want:
+                r.ok("inside a symbol, %r %s" % (chr(c), "standing Alone ends it" if sname == "Alone" else
+                                                 "Joint with its successor continues it"), pf)
+            elif not outs or any(k.startswith("?") for k, _ in outs):
+                r.violation("lexpr_macros::" + pf.path, "inexact:%s:%s" % (sname, chr(c)),
+                            "the reading of %r with Spacing::%s inside a symbol could not be evaluated (%s)" % (chr(c), sname, sorted(outs, key=repr)), pf.loc())
             else:
-                r.violation("lexpr_macros::" + pid.path, "spacing:%s:%s" % (v["name"], chr(c)),
-                            "after appending %r with Spacing::%s the macro %s: `(<= -1 x)` style input would be joined or "
-                            "split differently from the text parser" % (
-                                chr(c), v["name"], "goes on to the next token" if v["name"] == "Alone" else "stops"), pid.loc())
+                r.violation("lexpr_macros::" + pf.path, "spacing:%s:%s" % (sname, chr(c)),
+                            "after appending %r with Spacing::%s the macro's symbol covers %s token(s) instead of %d: "
+                            "`(<= -1 x)` style input would be joined or split differently from the text parser" % (
+                                chr(c), sname, "/".join(str(at) for _, at in sorted(outs, key=repr)), 2 if sname == "Alone" else 3), pf.loc())
         for c in sorted(init):
-            def hook0(S, fn, bb, t, args, path, c=c, sval=sval):
-                p = t["callee"].get("path", "")
-                if p == "parser::Parser::token":
-                    return ("value", Adt(RES, 0, [UNK]))
-                if p == "proc_macro2::Punct::as_char":
-                    return ("value", c)
-                if p == "proc_macro2::Punct::spacing":
-                    return ("value", sval)
-                if p in leaf:
-                    return ("value", UNK)
-                return None
-
-            S = sim.Sim([mac], hooks={"call": hook0}, inline=inline, max_paths=6000, max_depth=5)
-            joins, single = 0, 0
-            for pth in S.run(pf):
-                if not pth.calls("proc_macro2::Punct::as_char") or not pth.calls("proc_macro2::Punct::spacing"):
-                    continue
-                if pth.calls("parser::Parser::parse_identifier"):
-                    joins += 1
-                elif pth.end == "return":
-                    single += 1
+            outs = mp.parse([mp.P(c, sname), mp.P(follower), mp.T("Group")]) - {("rejected", None)}
             n += 1
-            if (v["name"] == "Alone" and joins == 0 and single > 0) or (v["name"] == "Joint" and joins > 0 and single == 0):
-                r.ok("at the start, %r with Spacing::%s %s" % (chr(c), v["name"], "stands alone" if joins == 0 else "starts a joined symbol"), pf)
+            want = {("Symbol", 1)} if sname == "Alone" else {("Symbol", 2)}
+            if outs == want:
+                r.ok("at the start, %r with Spacing::%s %s" % (chr(c), sname, "stands alone" if sname == "Alone" else "starts a joined symbol"), pf)
             else:
-                r.violation("lexpr_macros::" + pf.path, "initial-spacing:%s:%s" % (v["name"], chr(c)),
-                            "at the start of a symbol %r with Spacing::%s leads to %d joining and %d single-character "
-                            "outcomes" % (chr(c), v["name"], joins, single), pf.loc())
+                r.violation("lexpr_macros::" + pf.path, "initial-spacing:%s:%s" % (sname, chr(c)),
+                            "at the start of a symbol %r with Spacing::%s is read as %s, expected a symbol of %d token(s)"
+                            % (chr(c), sname, sorted(outs, key=repr), 1 if sname == "Alone" else 2), pf.loc())
     r.floor("spacing-cases", n)
 
 
-def list_dot(ctx, mac, lexpr):
+def list_dot(ctx, mp):
     """Inside a list the text parser takes `.` for the dotted-tail marker only when a delimiter follows it; a `.`
     glued to more punctuation starts a symbol (`...`, `.+`).  Rust reports that as Spacing::Joint.  The macro's
     list parser is evaluated on token vectors [Punct(c, spacing), next] - every punctuation character, both
@@ -184,31 +188,17 @@ def list_dot(ctx, mac, lexpr):
     r = ctx.rule("R-MACRO-DOT", "in a list, the macro takes a `.` for the dotted-tail marker exactly when it stands Alone; "
                                 "a `.` Joint with following punctuation (`...`) and every other punctuation character "
                                 "go to the element parser, whatever token follows")
+    mac = mp.mac
     pl = mac.fn("parser::parse_list")
-    sp = mac.ext_adts.get("proc_macro2::Spacing")
-    tt = mac.ext_adts.get("proc_macro2::TokenTree")
-    pa = mac.adts.get("parser::Parser")
-    if pl is None or not sp or not tt or not pa:
-        r.anchor_missing("parser::parse_list / parser::Parser / proc_macro2::Spacing / TokenTree")
-        return
-    vidx = {v["name"]: v["idx"] for v in tt["variants"]}
-    pfields = pa["variants"][0]["fields"]
-    vec_fields = [i for i, f in enumerate(pfields) if f["ty"].startswith("std::vec::Vec<proc_macro2::TokenTree")]
-    idx_fields = [i for i, f in enumerate(pfields) if f["ty"] == "usize"]
-    if len(vec_fields) != 1 or len(idx_fields) != 1 or len(pfields) != 2:
-        r.anchor_missing("parser::Parser { tokens: Vec<TokenTree>, index: usize } (fields %s)" % [f["ty"] for f in pfields])
+    if pl is None:
+        r.anchor_missing("parser::parse_list")
         return
     leaf = {"parser::Parser::parse_octothorpe", "parser::Parser::parse_identifier", "parser::parse_vector",
             "parser::string_literal", "parser::Parser::parse"}
-    inline = lambda a, b: b.crate == mac.name and b.file.endswith("parser.rs") and b.path not in leaf
-    spv = {v["name"]: Adt("proc_macro2::Spacing", v["idx"], [], v["name"]) for v in sp["variants"]}
-
-    def punct(c, s):
-        return Adt("proc_macro2::TokenTree", vidx["Punct"], [Adt("proc_macro2::Punct", 0, [c, spv[s]])], "Punct")
-
-    def other(kind):
-        return Adt("proc_macro2::TokenTree", vidx[kind], [sim.Opq(kind.lower())], kind)
-
+    leaf_fns = {f.path for f in (mac.fn(x) for x in leaf) if f is not None}
+    inline = lambda a, b: b.crate == mac.name and b.file.endswith("parser.rs") and b.path not in leaf_fns
+    new_fn = mac.fn("parser::Parser::new")
+    punct, other = mp.P, mp.T
     followers = {
         "Alone": [("nothing", []), ("an identifier", [other("Ident")]), ("a literal", [other("Literal")]),
                   ("a literal and an identifier", [other("Literal"), other("Ident")]),
@@ -220,6 +210,7 @@ def list_dot(ctx, mac, lexpr):
                   ("`+`", [punct(0x2B, "Alone")]), ("`=` glued on", [punct(0x3D, "Joint"), punct(0x3E, "Alone")])],
         # (a `.` glued to an unquote, `.,x`, is outside the documented syntax and not examined)
     }
+    parse_fn = mp.pf
     n = 0
     for sname in ("Alone", "Joint"):
         for c in PUNCT:
@@ -227,24 +218,17 @@ def list_dot(ctx, mac, lexpr):
                 toks = [punct(c, sname)] + rest
 
                 def hook(S, fn, bb, t, args, path, toks=toks):
-                    p = t["callee"].get("path", "")
-                    if p == "parser::Parser::new":
-                        fs = [None, None]
-                        fs[vec_fields[0]] = Adt("sim::Vec", 0, [sim.Tup(list(toks))])
-                        fs[idx_fields[0]] = 0
-                        return ("value", Adt("parser::Parser", 0, fs))
-                    if p in ("proc_macro2::Punct::as_char", "proc_macro2::Punct::spacing"):
+                    c0 = t["callee"]
+                    p = c0.get("resolved") or c0.get("path", "")
+                    if new_fn is not None and p == new_fn.path:
+                        return ("value", mp.parser_value(toks))
+                    if p == parse_fn.path:
                         pv = S._deref(args[0], path)
-                        if isinstance(pv, Adt) and pv.adt == "proc_macro2::Punct":
-                            return ("value", pv.fields[0 if p.endswith("as_char") else 1])
-                        return ("value", UNK)
-                    if p == "parser::Parser::parse":
-                        pv = S._deref(args[0], path)
-                        at = pv.fields[idx_fields[0]] if isinstance(pv, Adt) and pv.adt == "parser::Parser" else None
+                        at = pv.fields[mp.idx_field[0]] if isinstance(pv, Adt) and pv.adt == "parser::Parser" else None
                         return ("stop", {0: "element", 1: "tail"}.get(at, "?index"))
-                    if p in leaf:
+                    if p in leaf_fns:
                         return ("value", UNK)
-                    return None
+                    return mp.hook(S, fn, bb, t, args, path)
 
                 S = sim.Sim([mac], hooks={"call": hook}, inline=inline, max_paths=2000, max_depth=6, max_visits=3)
                 outs = set()
@@ -274,7 +258,7 @@ def list_dot(ctx, mac, lexpr):
     r.floor("list-dot-cases", n)
 
 
-def form_extent(ctx, mac):
+def form_extent(ctx, mp):
     """Each documented token form is consumed exactly: the macro's element parser, started on a token vector
     [form..., follower...], returns Ok with the cursor right behind the form - it neither leaves one of the form's
     tokens behind nor glues a following token on (`(#:size . large)`, `(#:from - to)`, `(-1 0 1)` keep their
@@ -283,29 +267,7 @@ def form_extent(ctx, mac):
     r = ctx.rule("R-MACRO-EXTENT", "the macro's element parser consumes exactly the tokens of each documented form "
                                    "(identifier, literal, group, #t/#f/#nil, #\"..\", #(..), #:name, #:\"..\", :name, "
                                    ":\"..\", -literal, unquote, punctuation symbol), whatever token follows")
-    pv = mac.fn("parser::parse_vector")
-    pf = mac.fn("parser::Parser::parse")
-    sp = mac.ext_adts.get("proc_macro2::Spacing")
-    tt = mac.ext_adts.get("proc_macro2::TokenTree")
-    pa = mac.adts.get("parser::Parser")
-    if pv is None or pf is None or not sp or not tt or not pa:
-        r.anchor_missing("parser::parse_vector / Parser::parse / parser::Parser / proc_macro2 token types")
-        return
-    vidx = {v["name"]: v["idx"] for v in tt["variants"]}
-    pfields = pa["variants"][0]["fields"]
-    vec_fields = [i for i, f in enumerate(pfields) if f["ty"].startswith("std::vec::Vec<proc_macro2::TokenTree")]
-    idx_fields = [i for i, f in enumerate(pfields) if f["ty"] == "usize"]
-    if len(vec_fields) != 1 or len(idx_fields) != 1 or len(pfields) != 2:
-        r.anchor_missing("parser::Parser { tokens: Vec<TokenTree>, index: usize } (fields %s)" % [f["ty"] for f in pfields])
-        return
-    spv = {v["name"]: Adt("proc_macro2::Spacing", v["idx"], [], v["name"]) for v in sp["variants"]}
-
-    def P(ch, s="Alone"):
-        return Adt("proc_macro2::TokenTree", vidx["Punct"], [Adt("proc_macro2::Punct", 0, [ord(ch), spv[s]])], "Punct")
-
-    def T(kind):
-        return Adt("proc_macro2::TokenTree", vidx[kind], [sim.Opq(kind.lower())], kind)
-
+    P, T, pf = mp.P, mp.T, mp.pf
     forms = [
         ("an identifier", [T("Ident")]), ("a literal", [T("Literal")]), ("a list", [T("Group")]),
         ("#ident", [P("#"), T("Ident")]), ('#"symbol"', [P("#"), T("Literal")]), ("#(vector)", [P("#"), T("Group")]),
@@ -319,63 +281,24 @@ def form_extent(ctx, mac):
                  ("`.` and an identifier", [P("."), T("Ident")]), ("`-` and an identifier", [P("-"), T("Ident")]),
                  ("`-` and a literal", [P("-"), T("Literal")]), ("`+`", [P("+")]), ("`@` and an identifier", [P("@"), T("Ident")]),
                  ("`:` and an identifier", [P(":"), T("Ident")]), ("an unquote", [P(","), T("Ident")])]
-    leaf = {"parser::string_literal"}
-    inline = lambda a, b: b.crate == mac.name and b.file.endswith("parser.rs") and b.path not in leaf
     n = und = 0
     for fname, form in forms:
         for gname, rest in followers:
-            toks = form + rest
-
-            def hook(S, fn, bb, t, args, path):
-                p = t["callee"].get("path", "")
-                if p in ("proc_macro2::Punct::as_char", "proc_macro2::Punct::spacing"):
-                    pvv = S._deref(args[0], path)
-                    if isinstance(pvv, Adt) and pvv.adt == "proc_macro2::Punct":
-                        return ("value", pvv.fields[0 if p.endswith("as_char") else 1])
-                    return ("value", UNK)
-                if p in ("parser::parse_list", "parser::parse_vector"):
-                    return ("value", Adt("std::result::Result", 0, [sim.Opq("nested")]))   # the group's own tokens
-                if p in leaf:
-                    return ("fork", [Adt("std::result::Result", 0, [sim.Opq("text")]), Adt("std::result::Result", 1, [UNK])])
-                return None
-
-            fs = [None, None]
-            fs[vec_fields[0]] = Adt("sim::Vec", 0, [sim.Tup(list(toks))])
-            fs[idx_fields[0]] = 0
-            cell = [Adt("parser::Parser", 0, fs)]
-            S = sim.Sim([mac], hooks={"call": hook}, inline=inline, max_paths=4000, max_depth=7, max_visits=6)
-            outs = set()
-            try:
-                for pth in S.run(pf, args={1: sim.Ref(cell, 0, ())}):
-                    if pth.end == "return" and isinstance(pth.ret, Adt) and pth.ret.adt.endswith("Result"):
-                        if pth.ret.variant != 0:
-                            outs.add("rejected")        # this reading of the form was refused
-                            continue
-                        # the parser object as this path left it (forked paths work on their own copy)
-                        mine, _ = S._caller_env(cell, pth, 0)
-                        pvv = mine[0]
-                        at = pvv.fields[idx_fields[0]] if isinstance(pvv, Adt) and pvv.adt == "parser::Parser" else None
-                        outs.add(str(at) if isinstance(at, int) else "?index")
-                    elif pth.end == "panic":
-                        outs.add("panic")
-                    else:
-                        outs.add("?" + str(pth.end))
-            except sim.Limit:
-                outs = {"?limit"}
+            outs = mp.parse(form + rest)
             n += 1
-            want = str(len(form))
+            want = len(form)
             what = "%s followed by %s" % (fname, gname)
-            got = outs - {"rejected"}
+            got = {at for k, at in outs if k != "rejected"}
             if got == {want}:
                 r.ok("%s: cursor behind the form" % what, pf)
-            elif not got or any(o.startswith("?") for o in got):
+            elif not got or any(not isinstance(x, int) for x in got):
                 und += 1
-                r.note("undecided: %s gives %s" % (what, sorted(outs)))
+                r.note("undecided: %s gives %s" % (what, sorted(outs, key=repr)))
             else:
                 r.violation("lexpr_macros::" + pf.path, "extent:%s:%s" % (fname, gname),
                             "sexp! reading %s leaves the cursor at token %s, the form has %d token(s): a neighbouring "
                             "token is glued on or one of the form's tokens is left over, so the list gets different "
-                            "elements than the text parser's" % (what, "/".join(sorted(got)), len(form)), pf.loc())
+                            "elements than the text parser's" % (what, "/".join(str(x) for x in sorted(got)), len(form)), pf.loc())
     r.floor("extent-cases", n)
     r.floor("extent-decided", n - und)
 
@@ -402,17 +325,17 @@ def run(ctx):
     if None in (pf, pid, poc, pt):
         r.anchor_missing("lexpr_macros::parser::Parser::{parse, parse_identifier, parse_octothorpe} / parse_token")
         return
-    try:
-        init, subs = macro_alphabets(mac, pf, pid)
-    except sim.Limit:
-        r.violation("lexpr_macros::parser::Parser::parse", "inexact", "path limit while evaluating the macro's parser")
+    mp = MacroParser(mac)
+    if not mp.ok:
+        r.anchor_missing(mp.why)
         return
+    init, subs, starter = macro_alphabets(mp)
     if not init or not subs:
-        r.anchor_missing("punctuation accepted by lexpr_macros Parser::parse / parse_identifier (none found)")
+        r.anchor_missing("punctuation accepted by lexpr_macros Parser::parse as symbols (none found)")
         return
-    spacing(ctx, mac, pf, pid, init, subs)
-    list_dot(ctx, mac, lexpr)
-    form_extent(ctx, mac)
+    spacing(ctx, mp, init, subs, starter)
+    list_dot(ctx, mp)
+    form_extent(ctx, mp)
     r.floor("initial-chars", len(init))
     r.floor("subsequent-chars", len(subs))
     # text parser: which first bytes can yield a symbol (default options; ':' with prefix keywords off)
